@@ -473,9 +473,17 @@ def esc_text(r, s, attr_quote=None, log=None):
     return "".join(out)
 
 
-def write(r, nodes, offsets, pos, in_raw=False, log=None):
+def esc_attr_plain(v):
+    """The Lean writer's attribute value escaping (Model/WriterText.lean `escAttr`): `&` and `"` only."""
+    return v.replace("&", "&amp;").replace('"', "&quot;")
+
+
+def write(r, nodes, offsets, pos, in_raw=False, log=None, plain=False):
     """Returns markup; records (name, offset) of every start tag in `offsets` in document order.
     `log` (a ChoiceLog) receives the choice taken per node; without it the output is exactly what it always was.
+    `plain=True`: the freedoms `Model/WriterText.lean: writeText` does not take are switched off (one space before an attribute,
+    `k="v"` with `&`/`"` as `&amp;`/`&quot;`, names as given, `>` / `/>` directly after the last attribute); without it the
+    output is exactly what it always was.
     Node kinds `dt` (doctype) and `ud` (marked-section declaration `<![if x]>`) are only produced by the `writer` stream."""
     parts = []
     for nd in nodes:
@@ -517,21 +525,28 @@ def write(r, nodes, offsets, pos, in_raw=False, log=None):
         else:
             _, name, attrs, kids = nd
             offsets.append(pos[0])
-            wname = name.upper() if r.random() < 0.1 else name
+            wname = name.upper() if (r.random() < 0.1 and not plain) else name
             s = "<" + wname
             for k, v in attrs:
+                if plain:
+                    s += " " + k + ("" if v is None else '="' + esc_attr_plain(v) + '"')
+                    continue
                 s += r.choice([" ", "  ", "\n", " \t"])
                 s += k.upper() if r.random() < 0.1 else k
                 if v is not None:
                     q = r.choice(['"', "'"])
                     s += r.choice(["=", " = ", "= "]) + q + esc_text(r, v, q) + q
             spelling = r.choice(["plain", "slash", "spaceslash", "pair"]) if name in VOID else "open"
+            if plain and spelling == "spaceslash":
+                spelling = "slash"
             if log is not None:
                 log.entries.append({"plain": "p", "slash": "s", "spaceslash": "s", "pair": "r", "open": "o"}[spelling])
             if spelling == "slash":
                 s += "/>"
             elif spelling == "spaceslash":
                 s += " />"
+            elif plain:
+                s += ">"
             else:
                 s += r.choice([">", " >"]) if not attrs or attrs[-1][1] is not None else ">"
             parts.append(s); pos[0] += len(s)
@@ -540,7 +555,7 @@ def write(r, nodes, offsets, pos, in_raw=False, log=None):
                     e = f"</{name}>"
                     parts.append(e); pos[0] += len(e)
             else:
-                parts.append(write(r, kids, offsets, pos, in_raw=name in ("script", "style"), log=log))
+                parts.append(write(r, kids, offsets, pos, in_raw=name in ("script", "style"), log=log, plain=plain))
                 e = f"</{wname}>"
                 parts.append(e); pos[0] += len(e)
     return "".join(parts)
